@@ -182,6 +182,13 @@ pub fn run(a: &Args, out: &mut impl Write) {
                 // the process-wide guard must be usable from another thread, promptly
                 let (tx, rx) = std::sync::mpsc::channel();
                 std::thread::spawn(move || {
+                    // through both entry points of the guard, the preventer first: the very next
+                    // acquisition after the lifetime must work whichever kind it is
+                    {
+                        let p = InjectorPP::prevent();
+                        let _ = t0(1);
+                        drop(p);
+                    }
                     let mut i2 = InjectorPP::new();
                     i2.when_called(shadow::func!(fn (t0)(i32) -> i32)).will_execute_raw(shadow::func!(fn (raw_fake)(i32) -> i32));
                     let v = t0(1);
